@@ -80,6 +80,17 @@ def c04_job(pid, job, bins, tier, seed, workdir, ev, drv):
                 else:
                     caps, pre = [3, 5, 8, 10, 12, 16], ["none", "macro05", "macro06", "fnc1"]
                 f.write(json.dumps({"input": list(t), "caps": caps, "prefixes": pre}) + "\n")
+        # end-of-symbol rules against every class of the character that follows: a body that fills whole C40/X12 triples or
+        # EDIFACT groups, a lower-case prefix that moves the body to each codeword position, one or two tail characters from the
+        # boundaries of the ASCII codeword ranges; capacities chosen so that the run ends 0, 1 or 2 codewords before the end
+        tails1 = [0, 31, 32, 47, 48, 57, 58, 64, 65, 90, 91, 94, 95, 96, 97, 122, 123, 124, 125, 126, 127, 128, 255]
+        tails = [[a] for a in tails1] + [[a, b] for a in tails1 for b in (49, 123)]
+        for body in ("DAT", "DATA", "D1 A"):
+            for pre in ("", "a", "ab"):
+                for t in tails:
+                    inp = [ord(c) for c in pre + body] + t
+                    f.write(json.dumps({"input": inp, "caps": [c for c in (5, 8, 10, 12) if c >= len(inp) - 3 and c <= len(inp) + 2],
+                                        "prefixes": ["none"]}) + "\n")
     lines1 = os.path.join(workdir, "genw-short.lines")
     t0 = time.time()
     gen, dist = run_tlc_lines(drv, "GenW", "GenW.cfg", {"INPUTS": short}, workdir, lines1)
